@@ -183,6 +183,8 @@ def to_case(res: Dict[str, Any]) -> Dict[str, Any]:
         "site": {"files": site["files"], "pages": pages,
                  "anchors": {p: site["anchors"].get(p, []) for p in pages},
                  "nameanchors": {p: site["nameanchors"].get(p, []) for p in pages},
+                 # the object a page is about (<title> = fullName of the documented object), "" for summary pages
+                 "subjects": {p: (site["titles"].get(p, "") if site["titles"].get(p, "") in objs else "") for p in pages},
                  "links": [{"page": a, "file": b, "frag": c, "prod": d, "member": e} for a, b, c, d, e in links],
                  "entries": [{"page": a, "kind": b, "file": c, "frag": d, "private": e} for a, b, c, d, e in entries],
                  "inv": sorted({r["id"] for r in site["inv"]}),
@@ -267,6 +269,7 @@ def verdict(case: Dict[str, Any]) -> Dict[str, Set[Tuple[Any, ...]]]:
     s = case["site"]
     files = set(s["files"])
     anchors = {p: set(a) for p, a in s["anchors"].items()}
+    subjects = s["subjects"]
 
     def resolves(f: str, g: str) -> bool:
         return f in files and (g == "" or (f in anchors and g in anchors[f]))
@@ -284,7 +287,7 @@ def verdict(case: Dict[str, Any]) -> Dict[str, Set[Tuple[Any, ...]]]:
         if i in v.hidden:
             continue
         kf = v.kf_obj(i)
-        if o["ownpage"] and o["file"] not in files:
+        if o["ownpage"] and not (o["file"] in files and subjects.get(o["file"]) == i):     # its OWN page at that address
             out["VisibleHasPage"].add((i, kf))
         if not o["ownpage"] and not (o["frag"] != "" and resolves(o["file"], o["frag"])):
             out["VisibleMemberHasAnchor"].add((i, kf))
@@ -422,24 +425,43 @@ def witness(case: Dict[str, Any], job: Dict[str, Any], inv: str, inst: Tuple[Any
 # ------------------------------------------------------------------------------------------------ TLC runs
 CFG_ENUM = """SPECIFICATION Spec
 CONSTANTS Source = "enum"
+          Fixed = {fixed}
           MaxNonDefault = {k}
           Depths = {depths}
 CONSTRAINT Emit
 INVARIANT D_OnlyKnown
 INVARIANT D_PrivateMarked
 """
-CFG_RAW = """SPECIFICATION Spec
-CONSTANTS Source = "enum"
-          MaxNonDefault = 1
-          Depths = {{1}}
-INVARIANT {inv}
-"""
 CFG_FILE = """SPECIFICATION Spec
 CONSTANTS Source = "file"
+          Fixed = {fixed}
           MaxNonDefault = 0
-          Depths = {}
+          Depths = {{}}
 CONSTRAINT Emit
 """
+
+# the model follows the tree: a finding whose entry is "fixed" in known_findings.json switches the corresponding
+# producers of Site.tla to the repaired behaviour (VERIF_SITE_FIXED=id,id overrides it when trying a fix in a worktree)
+MODEL_SWITCHES = {"link-to-hidden-object": "link-to-hidden-object", "dead-link-to-hidden-object": "link-to-hidden-object",
+                  "hidden-root-listed": "hidden-root-listed", "dead-link-hidden-root": "hidden-root-listed",
+                  "inherited-docstring-samepage-link": "inherited-docstring-samepage-link",
+                  "superseded-duplicate-listed": "superseded-duplicate-listed",
+                  "percent-encoded-page-filename": "percent-encoded-page-filename"}
+
+
+def fixed_set() -> str:
+    from .core import KNOWN_FINDINGS, tla
+    env = os.environ.get("VERIF_SITE_FIXED")
+    if env is not None:
+        ids = {x.strip() for x in env.split(",") if x.strip()}
+    else:
+        ids = set()
+        if KNOWN_FINDINGS.exists():
+            for f in json.loads(KNOWN_FINDINGS.read_text()):
+                if f.get("property") in ("C11", "C12") and f.get("status") == "fixed":
+                    ids.add(f.get("id"))
+    return tla({MODEL_SWITCHES[i] for i in ids if i in MODEL_SWITCHES})
+
 
 
 def tlc_validate(ctx: Ctx, cases: List[Dict[str, Any]], batch: int = 40) -> List[Dict[str, Any]]:
@@ -448,7 +470,7 @@ def tlc_validate(ctx: Ctx, cases: List[Dict[str, Any]], batch: int = 40) -> List
     for n, part in enumerate(chunks(cases, batch)):
         f = ctx.scratch / ("sites%d.json" % n)
         f.write_text(json.dumps(list(part)))
-        r = ctx.tlc("Site", CFG_FILE, workers="auto", env={"SITE_FILE": str(f)}, check=True, timeout=1500,
+        r = ctx.tlc("Site", CFG_FILE.format(fixed=fixed_set()), workers="auto", env={"SITE_FILE": str(f)}, check=True, timeout=1500,
                     java_opts=["-Xmx8g"])
         got = {rec["cid"]: rec for rec in r.printed}
         if len(got) != len(part):
@@ -458,7 +480,7 @@ def tlc_validate(ctx: Ctx, cases: List[Dict[str, Any]], batch: int = 40) -> List
     return out
 
 
-DIFF_KEYS = ("files", "links", "entries", "anchors", "inv", "docs", "search", "fsearch")
+DIFF_KEYS = ("files", "subjects", "links", "entries", "anchors", "inv", "docs", "search", "fsearch")
 
 
 def drift_of(rec: Dict[str, Any]) -> Dict[str, Any]:
@@ -533,7 +555,8 @@ def run_property(ctx: Ctx, prop: str) -> int:
 
     # ---- design level: TLC judges the predicted site of every model of the family
     k = 2 if ctx.quick else 3
-    r = ctx.tlc("Site", CFG_ENUM.format(k=k, depths="{1, 3}"), workers="auto", check=False, timeout=900,
+    ctx.extra["model_switches_fixed"] = fixed_set()
+    r = ctx.tlc("Site", CFG_ENUM.format(k=k, depths="{1, 3}", fixed=fixed_set()), workers="auto", check=False, timeout=900,
                 java_opts=["-Xmx8g"])
     if r.errors or (r.rc != 0 and not r.violated):
         raise MachineryError("TLC failed on Site (enum): %s rc=%s\n%s" % (r.errors[:3], r.rc, "\n".join(r.out.splitlines()[-30:])))
@@ -553,7 +576,7 @@ def run_property(ctx: Ctx, prop: str) -> int:
     ctx.extra["design_level_invariants_violated_by_tlc"] = list(r.violated)
     ctx.extra["design_level_signatures"] = len(sigs)
     if ctx.quick:          # -coverage 1 once, on the smallest bound (it slows TLC down five-fold)
-        rc = ctx.tlc("Site", CFG_ENUM.format(k=1, depths="{1}"), workers="auto", check=True, coverage=True, timeout=600,
+        rc = ctx.tlc("Site", CFG_ENUM.format(k=0, depths="{1}", fixed=fixed_set()), workers="auto", check=True, coverage=True, timeout=600,
                      count=False)
         ctx.extra["action_coverage"] = {a: c for a, c in rc.coverage.items() if a in ("Init", "Build", "Judge")}
         if any(rc.coverage.get(a, 0) == 0 for a in ("Build", "Judge")):
